@@ -386,8 +386,16 @@ func runHistory(o *Out, kind string, cfg hStoreCfg, ops []hOp) {
 	defer env.close()
 	var terms []string
 	var jobs []interface{}
-	for _, op := range ops {
+	for i, op := range ops {
+		cancel := wedgeWatch(wedgeLimit, fmt.Sprintf("store operation %d (%s) of a history", i, op.T), func() map[string]interface{} {
+			var jops []interface{}
+			for _, op := range ops[:i+1] {
+				jops = append(jops, op)
+			}
+			return map[string]interface{}{"store": cfg, "ops": jops}
+		})
 		t, obs := env.exec(op)
+		cancel()
 		terms = append(terms, t)
 		jobs = append(jobs, obs)
 	}
